@@ -239,12 +239,52 @@ pub fn verify_rule(cx: &Cx, rep: &mut Report) {
         syn::visit::Visit::visit_block(&mut v, &cf.block);
         for (attrs, tgt) in found { targets_seen.insert(format!("{caller}:{attrs}"), tgt); }
     }
-    let mut ok = targets_seen.len() >= 4;
-    for (k, tgt) in &targets_seen {
-        let attrs = k.rsplit(':').next().unwrap_or("");
-        let want = if attrs.contains("field.") { "Field" } else if attrs.contains("variant.") { "Variant" } else { "Type" };
-        if !tgt.ends_with(want) { ok = false; }
+    // whose attributes are they?  decided by the declared type of the owner (`x.attrs` with x: &Field / &Variant / &Item..),
+    // through one level of forwarding when the caller merely passes a parameter on; spelling is the fallback only
+    fn owner_kinds(ix: &Index, cg: &crate::roles::CallGraph, caller: &FnDef, expr: &str, depth: usize) -> Vec<&'static str> {
+        let e = expr.trim_start_matches('&').trim_start_matches("mut");
+        let (root, is_field) = match e.split_once('.') { Some((r, rest)) => (r.to_string(), rest.ends_with("attrs")), None => (e.to_string(), false) };
+        let pty = caller.sig.inputs.iter().find_map(|i| if let syn::FnArg::Typed(t) = i { if t.pat.to_token_stream().to_string() == root { Some(crate::index::ty_str(&t.ty)) } else { None } } else { None });
+        if let (Some(t), true) = (&pty, is_field) {
+            if t.contains("Field") { return vec!["Field"]; }
+            if t.contains("Variant") { return vec!["Variant"]; }
+            if t.contains("Item") || t.contains("DeriveInput") { return vec!["Type"]; }
+        }
+        if let (Some(_), false) = (&pty, is_field) {
+            // forwarded parameter: what do the callers of `caller` pass there?
+            if depth == 0 { return vec![]; }
+            let pos = caller.sig.inputs.iter().filter(|i| matches!(i, syn::FnArg::Typed(_))).position(|i| if let syn::FnArg::Typed(t) = i { t.pat.to_token_stream().to_string() == root } else { false });
+            let Some(pos) = pos else { return vec![] };
+            let mut out = Vec::new();
+            for (c2, callees) in &cg.edges {
+                if !callees.contains(&caller.qual) || *c2 == caller.qual { continue; }
+                let Some(cf2) = ix.get_fn(c2) else { continue };
+                struct V2 { name: String, pos: usize, out: Vec<String> }
+                impl<'ast> syn::visit::Visit<'ast> for V2 {
+                    fn visit_expr_call(&mut self, c: &'ast syn::ExprCall) {
+                        if let syn::Expr::Path(p) = &*c.func { if p.path.segments.last().map(|s| s.ident.to_string()) == Some(self.name.clone()) { if let Some(a) = c.args.iter().nth(self.pos) { self.out.push(a.to_token_stream().to_string().replace(' ', "")); } } }
+                        syn::visit::visit_expr_call(self, c);
+                    }
+                }
+                let mut v2 = V2 { name: caller.sig.ident.to_string(), pos, out: vec![] };
+                syn::visit::Visit::visit_block(&mut v2, &cf2.block);
+                for a in v2.out { out.extend(owner_kinds(ix, cg, &cf2, &a, depth - 1)); }
+            }
+            return out;
+        }
+        // untyped owner (closure parameter, local): by spelling
+        if e.contains("field.") { vec!["Field"] } else if e.contains("variant.") { vec!["Variant"] } else { vec!["Type"] }
     }
+    let mut ok = targets_seen.len() >= 3;
+    let mut kinds_seen = std::collections::BTreeSet::new();
+    for (k, tgt) in &targets_seen {
+        let (caller, attrs) = k.rsplit_once(':').unwrap_or(("", ""));
+        let Some(cf) = ix.get_fn(caller) else { ok = false; continue };
+        let wants = owner_kinds(ix, &cg, &cf, attrs, 2);
+        if wants.is_empty() { ok = false; }
+        for want in wants { kinds_seen.insert(want); if !tgt.ends_with(want) { ok = false; } }
+    }
+    if kinds_seen.len() != 3 { ok = false; }
     rep.check(ok, "ES-verify-reached", &fa.qual, "callers", &format!("item / variant / field attributes are not parsed with target Type / Variant / Field respectively: {targets_seen:?}"), &site(&fa), json!({}));
 }
 
@@ -260,18 +300,22 @@ pub struct CoreModel {
 pub fn core_model(cx: &Cx, kind: &str) -> Option<CoreModel> {
     let ix = &cx.ix;
     let role = cx.roles.iter().find(|r| r.item_kind == kind)?;
-    let core = role.core.clone();
+    let core = crate::roles::entry_core(ix, &role.core, kind);
     let mut ev = mk_ev(ix);
     let builders: Vec<String> = cx.roles.iter().filter(|r| r.item_kind == kind).filter_map(|r| r.callee.clone()).collect::<std::collections::BTreeSet<_>>().into_iter().collect();
     for b in &builders { ev.stops.push((b.clone(), "opaque")); }
     // parsers / constructors returning Result are summarised as symbolic results
     let cg = crate::roles::CallGraph::build(ix);
-    if let Some(callees) = cg.edges.get(&core.qual) {
+    let mut callees_all: Vec<String> = cg.edges.get(&core.qual).cloned().unwrap_or_default().into_iter().collect();
+    if role.core.qual != core.qual { callees_all.extend(cg.edges.get(&role.core.qual).cloned().unwrap_or_default()); }
+    {
+        let callees = &callees_all;
         for c in callees {
-            if builders.contains(c) { continue; }
+            if builders.contains(c) || *c == role.core.qual || *c == core.qual { continue; }
             if let Some(f) = ix.get_fn(c) {
                 let s = sig_text(&f);
-                if s.contains("->Result<") && !s.contains("TokenStream>") || s.contains("->Result<Vec<") { ev.stops.push((c.clone(), "ret")); }
+                let ret = s.rsplit("->").next().unwrap_or("").to_string();
+                if ret.starts_with("Result<") && !ret.contains("TokenStream") || ret.starts_with("Result<Vec<") { ev.stops.push((c.clone(), "ret")); }
             }
         }
     }
@@ -558,6 +602,7 @@ pub fn same_source_rule(cx: &Cx, rep: &mut Report) {
         let mut ok = false;
         for (_, fl) in &outs {
             let Flow::Val(v) = fl else { continue };
+            let v = match v { Val::Enum { var, args, .. } if var == "Ok" && args.len() == 1 => &args[0], o => o };
             let items: Vec<Val> = match v { Val::List(l) => l.clone(), o => vec![o.clone()] };
             if items.len() != 1 { continue; }
             if let Val::Rep { coll, items: body } = &items[0] {
